@@ -92,6 +92,8 @@ class Gen:
 
     def slot_expr(self):
         c = self.r.random()
+        if "noarrayslot" in self.f:
+            return [("push", self.r.choice([0, 1, 2, 3]))] if c < 0.5 else self.mapping_slot(1 if c < 0.8 else 0)
         if c < 0.4 or "sha3" not in self.f:
             return [("push", self.r.choice([0, 1, 2, 3]))]
         if c < 0.7:
@@ -423,6 +425,11 @@ class Gen:
             items += ["RETURNDATASIZE", ("push", 160), "MSTORE"]
         elif c < 0.9:
             items += ["RETURNDATASIZE", "PUSH0", ("push", 128), "RETURNDATACOPY"]
+        if r.random() < 0.5:
+            # does the address the creation was (or would have been) given exist afterwards?  A failed creation leaves
+            # nothing behind: EXTCODEHASH of a non-existent account is 0, of an existing empty one keccak("")
+            k = r.choice([1, 2, 2, 3])
+            items += [("pushn", 4, 0xAAAA0000 + k), r.choice(["EXTCODEHASH", "EXTCODEHASH", "EXTCODESIZE"]), ("push", 96), "MSTORE"]
         return items
 
     def symjump_tail(self):
